@@ -524,6 +524,9 @@ def run_C11(ctx):
     rate = 6 if ctx.quick else 1
     recs = exec_cases(ctx, "bounds", ["bounds"], rate, timeout=1500)
     recs = [r for r in recs if not r["case"]["allow"]]
+    # accesses whose check an engine may be tempted to reuse or elide (family flow: the same base
+    # register rewritten between two accesses, aliases of one location, pointers built without mov)
+    recs += [r for r in exec_cases(ctx, "flow", ["flow"], 1, timeout=1500) if r["case"]["id"][0] in ("uawmem", "alias")]
     ctx.nontrivial = len({json.dumps(r["case"]["id"]) for r in recs})
     replay_exec(ctx, "bounds", recs, ["cl"])
     ctx.extra["must_trap"] = sum(1 for r in recs if r["exp"]["k"] == "err")
